@@ -467,3 +467,33 @@ class _Dist(object):
 
 def stub_gammaln(x):
     return _elementwise(_lgamma, x)
+
+
+class NumpyObjProxy(object):
+    """`np` seen by one module during a symbolic run: identical to numpy except that freshly
+    allocated float accumulators (zeros/ones/eye/empty) are dtype=object so that symbolic values can
+    be added into them.  A dtype change only -- part of the trusted harness."""
+
+    def __init__(self):
+        self._np = np
+
+    def __getattr__(self, k):
+        return getattr(self._np, k)
+
+    def zeros(self, shape, dtype=None, **kw):
+        if dtype is None or dtype is float:
+            a = np.empty(shape, dtype=object)
+            a.fill(0)
+            return a
+        return np.zeros(shape, dtype=dtype, **kw)
+
+    def ones(self, shape, dtype=None, **kw):
+        if dtype is None or dtype is float:
+            a = np.empty(shape, dtype=object)
+            a.fill(1)
+            return a
+        return np.ones(shape, dtype=dtype, **kw)
+
+    def eye(self, n, *a, **kw):
+        e = np.eye(n, *a, **kw)
+        return e.astype(int).astype(object)
